@@ -33,7 +33,7 @@ kani_unit("utils_reader", "winter-utils", "utils/core/src/serde/byte_reader.rs",
 ])
 
 
-native_unit("read_adapter_native", "winter-utils", "utils/core", "native/read_adapter_bounded.rs", ["C13"],
+native_unit("read_adapter_native", "winter-utils", "utils/core", "native/read_adapter_bounded.rs", ["C13", "C12"],
             ["ReadAdapter::{read_u8, peek_u8, read_slice, read_array, check_eor, has_more_bytes, pop, read_exact, buffer_at_least}",
              "ByteReader provided methods over ReadAdapter"],
             "after every operation ReadAdapter returns what SliceReader returns on the same bytes (value or error kind); look-ahead is never pessimistic; no panic",
